@@ -32,7 +32,7 @@ func runC02(c *Ctx) {
 		return
 	}
 	c02R1(c, p)
-	c02R2(c, p)
+	c02R2(c, p, "C02.R2")
 	c02R3(c, p)
 	c02R4(c, p)
 	c02R5(c, p, "C02.R5")
@@ -377,8 +377,7 @@ func c02R1(c *Ctx, p *Prog) {
 
 // ---- R2 ----
 
-func c02R2(c *Ctx, p *Prog) {
-	const rule = "C02.R2"
+func c02R2(c *Ctx, p *Prog, rule string) {
 	fn := p.Func("board.(*Board).MakeMove")
 	if fn == nil {
 		c.Anchor(rule, "board.(*Board).MakeMove")
